@@ -326,6 +326,9 @@ async def _run(ctx, text):
         for i in mism[:8]:
             ctx.broke("correspondence (recv): receive-path model and implementation differ", json.dumps(rcases[i][2])[:600] + " impl=" + rcases[i][1][:300])
         ctx.coverage["traces_validated_against_impl"] += len(rcases) - len(mism)
+    # ------------------------------------------------------------------ C: nodes that hold live circuits
+    await _stateful_cells(ctx, r)
+
     # load_snapshot: total, terminates, only adds decoded addresses
     from ipv8.peerdiscovery.network import Network
     for _ in range(300 if ctx.quick else 5000):
@@ -348,6 +351,65 @@ async def _run(ctx, text):
                             "offsets 0/3; (B) all lengths 0..40 x {zeros, random, each overlay prefix}, every message id x short lengths per "
                             "overlay, every truncation and bit flips of captured real datagrams, random strings up to 1500 bytes biased to "
                             "valid prefixes; non-trivial = reaches the decoder / is at least 22 bytes; distinct by input bytes")
+
+
+async def _stateful_cells(ctx, r):
+    """Cells for circuits the receiving node really holds (originator, relay, exit), including bodies that are
+    validly encrypted under the session keys - what the other members of a circuit can send."""
+    from ipv8.messaging.anonymization.payload import CellPayload
+    from tools.vlib.tunnelnet import TunnelNet
+    tn = TunnelNet(n_relays=2, n_exits=1)
+    await tn.start()
+    try:
+        c = await tn.build_circuit(2)
+        if c is None:
+            ctx.broke("could not build a circuit for the stateful receive-path part", "")
+            return
+        o = tn.origin
+        prefix = o.get_prefix()
+        relay = tn.node_of(c.hops[0].peer.address)
+        exitn = next(ov for n, ov in tn.nodes.items() if ov.exit_sockets)
+        ecid = next(iter(exitn.exit_sockets))
+        n_cells = 0
+        messages = [b"", b"\x00", b"\x01", b"\x04", b"\x02\x00", bytes([1]) + bytes(10)] + \
+                   [bytes([m]) + r.randbytes(r.choice([0, 3, 8, 40])) for m in range(0, 22)]
+
+        def deliver(dst_node, src_addr, cid, body, plaintext=False, early=False, how=""):
+            nonlocal n_cells
+            data = CellPayload(cid, body, plaintext, early).to_bin(prefix)
+            n_cells += 1
+            ctx.count(("cell", how, data), nontrivial=True)
+            before = len(tn.net.escaped)
+            tn.net.queue.append((tuple(src_addr), dst_node.my_peer.address, data))
+            return data, before
+        for msg in messages:
+            for early in (False, True):
+                # forward: originator -> first hop, all layers applied as the originator does
+                cell = CellPayload(c.circuit_id, msg, False, early)
+                o.crypto_endpoint.encrypt_cell(cell, 0, *c.hops)
+                deliver(relay, o.my_peer.address, c.circuit_id, cell.message, False, early, "forward-encrypted")
+                # backward: exit -> previous hop
+                xs = exitn.exit_sockets[ecid]
+                cell = CellPayload(ecid, msg, False, early)
+                exitn.crypto_endpoint.encrypt_cell(cell, 1, xs.hop)
+                deliver(tn.node_of(xs.hop.peer.address), exitn.my_peer.address, ecid, cell.message, False, early, "backward-encrypted")
+                # plaintext flag on a known circuit
+                deliver(exitn, xs.hop.peer.address, ecid, msg, True, early, "plaintext-known-circuit")
+            await tn.settle()
+        # unauthenticated bodies for known circuit ids at every role
+        for node, cid, src in ((o, c.circuit_id, relay.my_peer.address), (exitn, ecid, exitn.exit_sockets[ecid].hop.peer.address),
+                               (relay, c.circuit_id, o.my_peer.address)):
+            for n in list(range(0, 60)) + [100, 500]:
+                deliver(node, src, cid, r.randbytes(n), False, r.random() < 0.5, "garbage-known-circuit")
+            await tn.settle()
+        for (dst, data, e) in tn.net.escaped:
+            ctx.violation("escape/%s/stateful" % type(e).__name__,
+                          "%s escapes notify_listeners at a node holding the cell's circuit (%d-byte cell)" % (type(e).__name__, len(data)),
+                          {"kind": "stateful-cell", "data": data.hex(), "dst": list(dst)})
+        ctx.extra["stateful_cells"] = n_cells
+        ctx.extra["stateful_crypto_calls"] = len(tn.crypto_log)
+    finally:
+        await tn.stop()
 
 
 def _noncanon(f):
